@@ -789,7 +789,7 @@ def tr_errors(tr, xtop=None, model='default', mdl=None, decoded_from=None, headr
 from penman.exceptions import GraphError  # noqa: E402
 
 _GFILTERS = [('a', None, None), (None, ':r', None), (None, None, 'b'), ('b', ':r', 'a'), (None, None, 'x'),
-             (None, ':instance', None), ('a', ':instance', 'a'), (None, ':instance', 'b')]
+             (None, ':instance', None), ('a', ':instance', 'a'), (None, ':instance', 'b'), (None, None, ''), ('', None, None)]
 
 
 def _gstate(g):
